@@ -44,7 +44,7 @@ type config struct {
 
 var configs = map[string]config{
 	"C01": {pkg: "./checks/c01", shardsQ: 4, shardsT: 16, level: "exploration"},
-	"C02": {pkg: "./checks/c02", shardsQ: 4, shardsT: 16, level: "exploration"},
+	"C02": {pkg: "./checks/c02", shardsQ: 8, shardsT: 16, level: "exploration"},
 	"C03": {pkg: "./checks/c03", shardsQ: 4, shardsT: 16, level: "fault_enumeration"},
 	"C04": {pkg: "./checks/c04", shardsQ: 4, shardsT: 16, level: "exploration", fuzz: []fuzzTarget{{"FuzzUnmarshalAll", 60}, {"FuzzAPIReply", 60}, {"FuzzListenHandler", 45}}},
 	"C05": {pkg: "./checks/c05", shardsQ: 4, shardsT: 16, level: "exploration", fuzz: []fuzzTarget{{"FuzzRoundTrip", 60}}},
